@@ -107,7 +107,7 @@ def handle : DrvHandler := fun op args =>
       let lj ← jField? j "loc"
       let c : TCfg := { initialDelay := ← jOpt? jInt? (← jField? cj "initialDelay"), idle := ← jOpt? jInt? (← jField? cj "idle"),
                         interval := ← jOpt? jInt? (← jField? cj "interval"), sharp := ← jBool? (← jField? cj "sharp"),
-                        guarded := ← jBool? (← jField? cj "guarded") }
+                        guarded := ← jBool? (← jField? cj "guarded"), yielding := ← jBool? (← jField? cj "yielding") }
       let e : TEnv := { now := ← jInt? (← jField? ej "now"), stop := ← jBool? (← jField? ej "stop"),
                         idleReset := ← jInt? (← jField? ej "idleReset") }
       let l : TLoc := { pc := ← (jStr? (← jField? lj "pc") >>= pcOf?), started := ← jInt? (← jField? lj "started"),
@@ -122,17 +122,18 @@ def handle : DrvHandler := fun op args =>
       let e : TEnv := { now := ← jInt? (← jField? ej "now"), stop := ← jBool? (← jField? ej "stop"),
                         idleReset := ← jInt? (← jField? ej "idleReset") }
       let idl ← jOpt? jInt? (← jField? j "initialDelay")
+      let yl ← jBool? (← jField? j "yielding")
       let k ← jNat? (← jField? j "k")
       let o ← outcomeOf? (← jField? j "outcome")
       let l : DLoc := { pc := .head, done := false, delay := 0, runs := 0 }
-      some (ok (Json.mkObj [("good", .bool o.good), ("settles", .bool (dsettles idl e (fun _ => o) k l))]))
+      some (ok (Json.mkObj [("good", .bool o.good), ("settles", .bool (dsettles idl yl e (fun _ => o) k l))]))
   | "C09.sweep", [j] => do
       let ds ← jArr? j
       let outs ← ds.mapM (fun d => do
         let rs ← (← jStrList? (← jField? d "reasons")).mapM reasonOf?
         pure (Json.bool (sweepSpawns { Inst.fresh with reasons := rs })))
       some (ok (.arr outs.toArray))
-  | "C09.variant", [] => some (ok (Json.mkObj [("treeGuarded", .bool treeGuarded)]))
+  | "C09.variant", [] => some (ok (Json.mkObj [("treeGuarded", .bool treeGuarded), ("treeYielding", .bool treeYielding)]))
   | _, _ => none
 
 end Kopf.Drv.C09
